@@ -58,6 +58,8 @@ def run_random(spec, out, alpha, nontrivial, shutdown=False):
             # reordered manager
             cfg = dict(cfg, ctor=('levels', 'copy_vars')[sd % 6 - 4],
                        ctor_seed=sd)
+        if sd % 5 == 0 and 'log' not in cfg:
+            cfg = dict(cfg, log=True)
         hist = dict(cfg=cfg, ops=oplist)
         if shutdown:
             hist['shutdown'] = sd
